@@ -753,6 +753,21 @@ def run_session(world, model, sdesc, armed, index, logger=None, gen_cb=None, che
 
         sess.c07_expected = oracles.c07_expected(sess)
     sess.pre_blocks = {b.uuid for b in m.byte_blocks}
+    # address order of every section before the session: what 'the next
+    # block' was when a block of this section is deleted (modifications are
+    # applied in address order, so everything behind it is still untouched)
+    sess.pre_order = {
+        sect.name: [
+            (
+                b.uuid,
+                isinstance(b, gtirb.CodeBlock),
+                b.size,
+                isinstance(b, gtirb.CodeBlock) and any(not (e.label and e.label.type == gtirb.Edge.Type.Fallthrough) for e in b.incoming_edges),
+            )
+            for b in sorted(sect.byte_blocks, key=lambda b: (b.address if b.address is not None else -1, b.size != 0, b.offset))
+        ]
+        for sect in m.sections
+    }
     sess.orig_cfg = world.ir.cfg
     sess.pre_symbol_refs = {s.uuid: s.referent is not None for s in m.symbols}
     sess.cache_cfg = None
